@@ -43,6 +43,8 @@ def ret_label(p):
         if v[3] == 'Err':
             if inner[0] == 'agg':
                 return 'Err:%s' % inner[3]
+            if inner[0] == 'call' and not re.search(r'to_string$', inner[1]):
+                return 'Err:call(%s)' % inner[1].rsplit('::', 1)[-1]
             return 'Err:?%s' % show(inner)[:60]
         if inner[0] == 'agg':
             lab = 'Ok:%s' % inner[3]
@@ -57,9 +59,21 @@ def ret_label(p):
             return lab
         return 'Ok:?%s' % show(inner)[:60]
     if is_call(v, r'FromResidual.*::from_residual$'):
-        src = peel_result(strip(v[2][0])[1][1]) if strip(v[2][0])[0] == 'field' else ('unk', '')
+        a = strip(v[2][0])
+        if a[0] == 'agg' and a[2] == 'core::result::Result' and a[3] == 'Err' and a[4]:
+            # `Err(e)?` with e known on this path (built by a combinator that the analysis executed)
+            return _err_label(strip(a[4][0][1]))
+        src = peel_result(a[1][1]) if a[0] == 'field' else ('unk', '')
         return 'Err:propagated(%s)' % (src[1].rsplit('::', 1)[-1] if src[0] == 'call' else '?')
     return 'other:%s' % show(v)[:80]
+
+
+def _err_label(inner):
+    if inner[0] == 'agg':
+        return 'Err:%s' % inner[3]
+    if inner[0] == 'call':
+        return 'Err:call(%s)' % inner[1].rsplit('::', 1)[-1]
+    return 'Err:?%s' % show(inner)[:60]
 
 
 def is_self_field(v, names, param=1):
@@ -227,6 +241,16 @@ def method_isolation(chk, F, rule, cfg, paths):
 # eval::eval responder table (R02.5, R05.6)
 # ------------------------------------------------------------------------------------------
 
+def _mentions_fn_const(j, name):
+    if isinstance(j, dict):
+        if j.get('fn') == name and 'fn_args' in j or (j.get('fn') == name and len(j) <= 4):
+            return True
+        return any(_mentions_fn_const(v, name) for v in j.values())
+    if isinstance(j, list):
+        return any(_mentions_fn_const(v, name) for v in j)
+    return False
+
+
 def eval_table(chk, F, rule, cfg):
     fn = F.fn('eval::eval')
     paths = symex.Interp(F).run(fn)
@@ -301,6 +325,11 @@ def eval_table(chk, F, rule, cfg):
                     n += 1
                     chk.ob(rule, 'Eval::Return is only constructed by eval::eval from a stored output', body.defp == 'eval::eval', config=cfg, fn=body,
                            site='construct:Eval::Return', what='Eval::Return built elsewhere', found=body.defp)
+            # the constructor used as a function value (`.map(Eval::Return)`) is a construction site too
+            if _mentions_fn_const(body.body, 'private::Eval::Return'):
+                n += 1
+                chk.ob(rule, 'Eval::Return is only constructed by eval::eval from a stored output', body.root == 'eval::eval', config=cfg, fn=body,
+                       site='construct:Eval::Return', what='Eval::Return built elsewhere', found=body.defp)
     chk.floor(rule, 'Eval::Return construction sites', n, 1, config=cfg)
     # inputs are only borrowed before being handed back (R05.6)
     for p in paths[:1]:
@@ -460,8 +489,8 @@ def selector_rules(chk, F, cfg, r_scan='R01.1', r_pure='R01.2', r_ord='R04.5', r
             return None
         rows = tables.abstract(ord_paths, atom, ret_label)
         oracle = [
-            ('no slot owner in this method => order error', {'found': {0}}, 'Err:propagated(find_call_pattern_for_call_order)'),
-            ('matcher error propagates', {'found': {1}, 'matcher': {'err'}}, 'Err:propagated(call)'),
+            ('no slot owner in this method => order error', {'found': {0}}, ('Err:propagated(find_call_pattern_for_call_order)', 'Err:propagated(ok_or_else)', 'Err:CallOrderNotMatchedForMockFn')),
+            ('matcher error propagates', {'found': {1}, 'matcher': {'err'}}, ('Err:propagated(call)', 'Err:propagated(map_err)', 'Err:call(map_pattern_error)')),
             ('slot owner rejects the arguments => error, no fall-through', {'found': {1}, 'matcher': {'ok'}, 'accepted': {0}}, 'Err:InputsNotMatchedInCallOrder'),
             ('slot owner accepts => that pattern', {'found': {1}, 'matcher': {'ok'}, 'accepted': {1}}, 'Ok:Some'),
         ]
@@ -505,6 +534,34 @@ def selector_rules(chk, F, cfg, r_scan='R01.1', r_pure='R01.2', r_ord='R04.5', r
             chk.ob(r_bump, 'next_ordered_call_index is only touched by construction and the bump', len(users) == 2 and 'state::SharedState::new' in users, config=cfg,
                site='field:next_ordered_call_index', what='users of the slot counter', found=users)
     return fn, paths
+
+
+def index_is_position(chk, F, rule, cfg):
+    """the pattern index the selector pairs with the selected pattern (it ends up in every message that names a pattern, and in
+    the diagnostics) is that pattern's position in the method's list: in the pipeline form `enumerate` sits directly on the list's
+    iterator, below every adaptor that can drop elements"""
+    fn = F.fn('eval::DynCtx::match_call_pattern')
+    root_pred = lambda x: x[0] == 'ref' and x[1][1][-1:] == (('f', 'call_patterns'),) and x[1][0] == ('ptr', ('param', 0, 2))  # noqa: E731
+    n = 0
+    for p in symex.Interp(F).run(fn):
+        v = p.outcome[1] if p.outcome[0] == 'return' else ('unk', '')
+        names = L.pipeline_calls(v, root_pred)
+        if names is None:
+            # the result is assembled explicitly: follow the PatIndex component of Ok(Some((PatIndex(i), pattern))) / Err(map_pattern_error(.., PatIndex(i)))
+            for x in symex.subvalues(strip(v)):
+                if x[0] == 'agg' and x[2].endswith('PatIndex') and x[4]:
+                    names = L.pipeline_calls(x[4][0][1], root_pred)
+                    if names is not None:
+                        break
+        if names is None or not any(re.search(r'Iterator>?::enumerate$', x) for x in names):
+            continue          # ordered arm / loop form (the loop form is decided by loop_scan: index and element come from the same `next`)
+        n += 1
+        i = max(k for k, x in enumerate(names) if re.search(r'Iterator>?::enumerate$', x))
+        below = names[i + 1:]
+        ok = all(re.search(r'(::Deref>?::deref$|::iter$|IntoIterator>?::into_iter$|::as_slice$)', x) for x in below)
+        chk.ob(rule, 'the index paired with a selected pattern is its position in the list (enumerate sits directly on the list iterator)', ok, config=cfg, fn=fn, site='index-position',
+               what='adaptors below enumerate: %s' % [x.rsplit('::', 1)[-1] for x in below], found=[x.rsplit('::', 1)[-1] for x in names])
+    return n
 
 
 LOOP_SRC_OK = re.compile(r'(::Deref>?::deref$|::iter$|IntoIterator>?::into_iter$|Iterator::enumerate$|::as_slice$|Iterator::by_ref$|Iterator>?::next$)')
@@ -674,6 +731,12 @@ def slot_lookup(chk, F, rule, cfg):
             elem_ok = False
             for x in symex.subvalues(el):
                 if is_call(x, r'ops::Index<I>>?::index$|::get_unchecked$') and own(strip(x[2][0])) and strip(x[2][1]) == idx:
+                    elem_ok = True
+            # or: index and element are the two halves of one item of `list.iter().enumerate()` (`.find(..).map(|(i, p)| (PatIndex(i), p))`)
+            if idx[0] == 'field' and idx[2] == '0' and el[0] == 'field' and el[2] == '1' and strip(idx[1]) == strip(el[1]) and idx[1][0] in ('field', 'as'):
+                item = strip(idx[1])
+                pn = L.pipeline_calls(item, own)
+                if pn is not None and any(re.search(r'Iterator>?::enumerate$', n_) for n_ in pn):
                     elem_ok = True
             chk.ob(rule, 'the pattern returned is the element of the method\'s own list at the index the scan found', elem_ok and names is not None, config=cfg, fn=fn, site='scan-elem',
                    what='slot scan element %s' % show(el)[:100], found=show(el)[:200])
